@@ -80,7 +80,7 @@ func genConc(out *bufio.Writer, rng *rand.Rand, rounds int) int {
 		[]byte("u equ 3\nv equ 4\nw equ 5\nk equ u+u*v-w+v\nm equ k+u-k+w\ni for m-7\nmov i, k\nrof\ndat m, k\n"),
 		[]byte("z9 equ z1+z1+z2+z2+z3\nz1 equ 1\nz2 equ 2\nz3 equ 3\ni for z9-7\ndat i, z9\nrof\n"))
 	// deep EQU chains (recursion depth of the resolver depends on the map order)
-	for _, depth := range []int{20, 34, 40, 60} {
+	for _, depth := range []int{20, 34, 40, 60, 63, 64, 65, 70, 100, 130} {
 		var sb strings.Builder
 		for d := depth; d >= 1; d-- {
 			if d == 1 {
@@ -89,7 +89,8 @@ func genConc(out *bufio.Writer, rng *rand.Rand, rounds int) int {
 				fmt.Fprintf(&sb, "c%d equ c%d+1\n", d, d-1)
 			}
 		}
-		fmt.Fprintf(&sb, "dat #0, #c%d\ni for c3\nmov i, c%d\nrof\n", depth, depth)
+		// the FOR count itself depends on the whole chain: c<depth> - (depth-2) = 2
+		fmt.Fprintf(&sb, "dat #0, #c%d\ni for c%d-%d\nmov i, c%d\nrof\n", depth, depth, depth-2, depth)
 		texts = append(texts, []byte(sb.String()))
 	}
 	// independent EQUs referenced after a repeated one, in FOR counts and operands, random shapes
